@@ -19,6 +19,7 @@ import (
 	"sync"
 	"sync/atomic"
 	"time"
+	"unsafe"
 )
 
 // ---------------------------------------------------------------------------
@@ -155,6 +156,7 @@ type World struct {
 	Events    uint64
 	Digest    uint64
 	Blown     bool // budget exceeded (sticky)
+	Deadlocked bool // the tasks of the code under test deadlocked on intercepted synchronisation
 	clockOff  time.Duration
 	Fired     [nKinds]uint64 // non-default decisions actually taken
 	Asked     [nKinds]uint64
@@ -181,6 +183,8 @@ type taskState struct {
 	started bool
 	panicV  interface{}
 	stack   []byte
+	// blockedOn is the intercepted synchronisation object (simrt.Mutex, ...) this task waits for; nil = runnable
+	blockedOn unsafe.Pointer
 }
 
 var world *World
@@ -759,7 +763,7 @@ func (w *World) yield() {
 	// candidates: runnable (started, not done) tasks other than me
 	n := 0
 	for i := range w.tasks {
-		if int32(i) != me && !w.tasks[i].done {
+		if int32(i) != me && !w.tasks[i].done && w.tasks[i].blockedOn == nil {
 			n++
 		}
 	}
@@ -772,7 +776,7 @@ func (w *World) yield() {
 	}
 	k := int(c)
 	for i := range w.tasks {
-		if int32(i) != me && !w.tasks[i].done {
+		if int32(i) != me && !w.tasks[i].done && w.tasks[i].blockedOn == nil {
 			k--
 			if k == 0 {
 				w.passTurn(int32(i))
@@ -802,10 +806,27 @@ func (w *World) passTurn(to int32) {
 	w.turn = to
 }
 
+// waitTurn parks the caller until it holds the turn. Backstop: if the simulated clock (event
+// counter) does not advance for a long wall-clock time, the turn holder is blocked on something
+// the simulator does not intercept (a channel, a WaitGroup, real I/O): the process exits with
+// status 3 instead of hanging.
+//
 //go:norace
 func (w *World) waitTurn(me int32) {
+	spins := 0
+	var lastEvents uint64
+	var since time.Time
 	for w.turn != me {
 		runtime.Gosched()
+		spins++
+		if spins&0xfffff == 0 {
+			if w.Events != lastEvents || since.IsZero() {
+				lastEvents, since = w.Events, time.Now()
+			} else if time.Since(since) > 60*time.Second {
+				os.Stderr.WriteString("simrt: scheduler stalled: the task holding the turn blocks on synchronisation the simulator does not intercept\n")
+				os.Exit(3)
+			}
+		}
 	}
 }
 
@@ -892,15 +913,37 @@ func taskSetPanic(w *World, id int32, r interface{}, st []byte) {
 func taskDone(w *World, id int32) {
 	w.tasks[id].done = true
 	// pass the turn to a remaining task (scheduler's choice) or back to the harness
-	n := 0
+	w.passToRunnable()
+}
+
+// passToRunnable hands the turn to a runnable (not done, not blocked) task chosen by the
+// scheduler, or back to the harness when every task is done. If tasks remain but all of them
+// wait on intercepted synchronisation objects, the code under test has deadlocked: the world
+// is marked and the blocked tasks are released with a panic.
+//
+//go:norace
+func (w *World) passToRunnable() {
+	n, live := 0, 0
 	for i := 1; i < len(w.tasks); i++ {
 		if !w.tasks[i].done {
-			n++
+			live++
+			if w.tasks[i].blockedOn == nil {
+				n++
+			}
 		}
 	}
-	if n == 0 {
+	if live == 0 {
 		w.passTurn(0)
 		return
+	}
+	if n == 0 {
+		w.Deadlocked = true
+		for i := 1; i < len(w.tasks); i++ {
+			if !w.tasks[i].done {
+				w.tasks[i].blockedOn = nil // they wake up, see Deadlocked and panic
+			}
+		}
+		n = live
 	}
 	c := uint64(0)
 	if n > 1 {
@@ -908,7 +951,7 @@ func taskDone(w *World, id int32) {
 	}
 	k := int(c)
 	for i := 1; i < len(w.tasks); i++ {
-		if !w.tasks[i].done {
+		if !w.tasks[i].done && w.tasks[i].blockedOn == nil {
 			if k == 0 {
 				w.passTurn(int32(i))
 				return
@@ -918,6 +961,40 @@ func taskDone(w *World, id int32) {
 	}
 }
 
+// block parks the running task until obj is released (intercepted synchronisation).
+//
+//go:norace
+func (w *World) block(obj unsafe.Pointer) {
+	me := w.curTask
+	w.event('B', uint64(me), 0)
+	w.tasks[me].blockedOn = obj
+	w.passToRunnable()
+	w.waitTurn(me)
+	if w.Deadlocked {
+		panic(ErrDeadlock)
+	}
+}
+
+// wake marks every task waiting for obj runnable again (they re-check when they get the turn).
+//
+//go:norace
+func (w *World) wake(obj unsafe.Pointer) {
+	for i := 1; i < len(w.tasks); i++ {
+		if w.tasks[i].blockedOn == obj {
+			w.tasks[i].blockedOn = nil
+		}
+	}
+}
+
+type deadlockPanic struct{}
+
+func (deadlockPanic) Error() string {
+	return "simrt: all remaining tasks wait on mutexes/once held by each other (deadlock in the code under test)"
+}
+
+// ErrDeadlock is the panic value delivered to tasks when the code under test deadlocks.
+var ErrDeadlock error = deadlockPanic{}
+
 // CurTask returns the id of the running task (0 = harness).
 //
 //go:norace
@@ -926,4 +1003,137 @@ func CurTask() int {
 		return int(w.curTask)
 	}
 	return 0
+}
+
+
+// ---------------------------------------------------------------------------
+// Intercepted synchronisation: sync.Mutex, sync.RWMutex and sync.Once of the code under test are
+// replaced by these (rewrite R6). While tasks run under the simulated scheduler a task that would
+// block parks and passes the turn; the real primitive underneath is only ever taken uncontended and
+// provides the happens-before edges the original would (so the race detector sees them).
+
+type Mutex struct {
+	mu   sync.Mutex
+	held bool
+}
+
+//go:norace
+func (m *Mutex) isHeld() bool { return m.held }
+
+//go:norace
+func (m *Mutex) setHeld(v bool) { m.held = v }
+
+func (m *Mutex) Lock() {
+	if w := Active(); w != nil && multi(w) {
+		for m.isHeld() {
+			w.block(unsafe.Pointer(m))
+		}
+		m.setHeld(true)
+	}
+	m.mu.Lock()
+}
+
+func (m *Mutex) TryLock() bool {
+	if w := Active(); w != nil && multi(w) {
+		if m.isHeld() {
+			return false
+		}
+		m.setHeld(true)
+		m.mu.Lock()
+		return true
+	}
+	return m.mu.TryLock()
+}
+
+func (m *Mutex) Unlock() {
+	m.mu.Unlock()
+	if w := Active(); w != nil && multi(w) {
+		m.setHeld(false)
+		w.wake(unsafe.Pointer(m))
+	}
+}
+
+//go:norace
+func multi(w *World) bool { return w.multi }
+
+type RWMutex struct {
+	mu      sync.RWMutex
+	writer  bool
+	readers int
+}
+
+//go:norace
+func (m *RWMutex) state() (bool, int) { return m.writer, m.readers }
+
+//go:norace
+func (m *RWMutex) set(writer bool, dr int) { m.writer = writer; m.readers += dr }
+
+func (m *RWMutex) Lock() {
+	if w := Active(); w != nil && multi(w) {
+		for {
+			wr, rd := m.state()
+			if !wr && rd == 0 {
+				break
+			}
+			w.block(unsafe.Pointer(m))
+		}
+		m.set(true, 0)
+	}
+	m.mu.Lock()
+}
+
+func (m *RWMutex) Unlock() {
+	m.mu.Unlock()
+	if w := Active(); w != nil && multi(w) {
+		m.set(false, 0)
+		w.wake(unsafe.Pointer(m))
+	}
+}
+
+func (m *RWMutex) RLock() {
+	if w := Active(); w != nil && multi(w) {
+		for {
+			wr, _ := m.state()
+			if !wr {
+				break
+			}
+			w.block(unsafe.Pointer(m))
+		}
+		m.set(false, 1)
+	}
+	m.mu.RLock()
+}
+
+func (m *RWMutex) RUnlock() {
+	m.mu.RUnlock()
+	if w := Active(); w != nil && multi(w) {
+		m.set(false, -1)
+		w.wake(unsafe.Pointer(m))
+	}
+}
+
+func (m *RWMutex) RLocker() sync.Locker { return rlocker{m} }
+
+type rlocker struct{ m *RWMutex }
+
+func (r rlocker) Lock()   { r.m.RLock() }
+func (r rlocker) Unlock() { r.m.RUnlock() }
+
+// Once replaces sync.Once.
+type Once struct {
+	mu      Mutex
+	done    uint32
+	running bool
+}
+
+func (o *Once) Do(f func()) {
+	if atomic.LoadUint32(&o.done) == 1 {
+		return
+	}
+	o.mu.Lock()
+	defer o.mu.Unlock()
+	if o.done == 0 {
+		defer atomic.StoreUint32(&o.done, 1)
+		f()
+	}
 }
